@@ -539,11 +539,18 @@ pub fn judge(w: &World, run: &Run, focus: Option<&str>) -> (Verdict, RunInfo) {
             Some(text) => {
                 let facts = inst.facts.as_ref().unwrap();
                 if !f.has_ast || f.include_error.is_some() {
+                    // also C11's subject when the text that was delivered has syntax diagnostics:
+                    // a file that is not even lexed cannot have its malformed lexemes diagnosed
+                    // nor gate the later stages
+                    let props: &[&'static str] = if facts.syn.is_empty() { C18 } else { &["C18", "C11"] };
                     return Some(viol(
                         "R7",
-                        C18,
+                        props,
                         "no-ast-for-read-file",
-                        format!("`{}` was read successfully but has no parse result", f.path),
+                        format!(
+                            "`{}` was read successfully ({} bytes delivered, {} syntax diagnostics when parsed alone) but has no parse result",
+                            f.path, text.len(), facts.syn.len()
+                        ),
                     ));
                 }
                 // G1: tree iff no lexical diagnostic
